@@ -55,7 +55,7 @@ func c20Run(c *core.Ctx) {
 	}
 	res.Bound["first_generation"] = fmt.Sprintf("C01 histories with <= %d DML statements, every crash point (torn log writes included, torn page writes excluded: known finding of C01)", maxOps)
 	res.Bound["second_generation"] = "every prefix of the recovery's own I/O trace, every subset of its flush-all runs, torn last log write"
-	seeds := crashSeeds(false)
+	seeds := crashSeeds(c.Thorough())
 	item := 0
 	n1, n2, n3 := int64(0), int64(0), int64(0)
 	for _, seed := range seeds {
@@ -195,7 +195,7 @@ func init() {
 				MaxOps int         `json:"max_ops"`
 			}
 			json.Unmarshal(raw, &rp)
-			for _, seed := range crashSeeds(false) {
+			for _, seed := range append(crashSeeds(false), crashSeeds(true)...) {
 				if seed.Name != rp.First.Seed {
 					continue
 				}
